@@ -3,7 +3,7 @@
    sc3/base/utils.py, sc3/synth/ugens/inout.py), tied to the code by harness/props/C03.py. *)
 From Coq Require Import ZArith List Bool Arith.
 Import ListNotations.
-Require Import SC3.model.Mce SC3.proofs.C03_mce SC3.proofs.C03_lists SC3.proofs.C03_wrap.
+Require Import SC3.model.Mce SC3.proofs.C03_mce SC3.proofs.C03_lists SC3.proofs.C03_wrap SC3.proofs.C03_full.
 
 (* --- unit-generator constructors: SynthObject._multi_new ------------------------------ *)
 (* for ALL constructors new1, ALL argument vectors and states: without a non-empty list
@@ -69,8 +69,9 @@ Proof. exact multi_new_empty_among. Qed.
    as ONE equation.  Proved here in two halves that together say the same: the recursive
    equation over the wrap-extended operands (below, all four shape cases, tuples being
    sequences exactly as the code treats them), and wrap_extend_law: the wrap-extended
-   operands have length max |a| |b| and element i mod length.  Not proved: the fusion of the
-   flat branch (mapM over zip) with the nested branch (loop over indices) into one formula. *)
+   operands have length max |a| |b| and element i mod length.  The fusion into ONE formula is
+   list_binop_wrap_law below (kept: this equation also covers the sequence-scalar cases and
+   the behaviour for empty operands). *)
 Theorem list_binop_wrap_law_partial : forall (op2 : arg -> arg -> M arg) a b t st,
   list_binop op2 a b t st =
   (match is_seq a, is_seq b with
@@ -105,15 +106,14 @@ Proof. exact flop_law_lemma. Qed.
 (* madd as the law requires it (= the repaired code) is one _multi_new over receiver, mul, add,
    so mce_law applies to it.  FULL statement wanted (channel_list_methods_law): every
    _multichannel_perform method equals the channel list of the per-row method calls over
-   flop([self, *args]); that is the DEFINITION of mc_perform in the model (corresponded, not
-   a theorem), and flop_law says what the rows are. *)
+   flop([self, *args]): proved below as channel_list_methods_law, for every selector. *)
 Theorem channel_list_methods_law_partial : forall cls self mul add st,
   cl_madd cls self mul add st = multi_new (new1_plain cls 1) [Lst self; mul; add] st.
 Proof. exact cl_madd_is_multi_new. Qed.
 
 (* --- output units ---------------------------------------------------------------------------- *)
-(* FULL statement wanted additionally: channels other than literal zeros are unchanged and keep
-   their positions (checked by the correspondence on every Out case, not proved). *)
+(* first version; the complete statement (places, order, exact number of silence units) is
+   out_splice_and_silence below. *)
 Theorem out_splice_and_silence_partial : forall dc out bus output st r st',
   out_ar dc out bus output st = Ok r st' ->
   exists chans silences outs,
@@ -123,6 +123,85 @@ Theorem out_splice_and_silence_partial : forall dc out bus output st r st',
     st' = st ++ silences ++ outs /\ length outs = count_calls (bus :: chans) /\
     Forall (flat_vector out) outs.
 Proof. exact out_ar_spec. Qed.
+
+(* ======================= full statements (deepening round) ============================ *)
+(* list_binop, ONE formula: for two non-empty sequences (lists or tuples, as the code treats
+   them) the result is the sequence, of the requested type, of
+       list_binop op a[i mod |a|] b[i mod |b|]        for i = 0 .. max |a| |b| - 1
+   evaluated in that order on the growing SynthDef -- recursively, the right-hand side being
+   list_binop again (on two non-sequences list_binop IS op: list_binop_wrap_law_partial, last
+   case); the element type is tuple iff one of the two elements is a tuple. *)
+Theorem list_binop_wrap_law : forall (op2 : arg -> arg -> M arg) a b t st,
+  is_seq a = true -> is_seq b = true -> items a <> [] -> items b <> [] ->
+  list_binop op2 a b t st =
+  bind (loop (fun i => match nth_error (items a) (i mod length (items a)),
+                             nth_error (items b) (i mod length (items b)) with
+                       | Some x, Some y => list_binop op2 x y (elem_kind x y)
+                       | _, _ => raise IndexError
+                       end) 0 (Nat.max (length (items a)) (length (items b))))
+       (fun r => ret (mk t r)) st.
+Proof. exact list_binop_fused. Qed.
+Theorem list_binop_length_is_max : forall (op2 : arg -> arg -> M arg) a b t st r st',
+  is_seq a = true -> is_seq b = true -> items a <> [] -> items b <> [] ->
+  list_binop op2 a b t st = Ok r st' ->
+  exists rs, r = mk t rs /\ length rs = Nat.max (length (items a)) (length (items b)).
+Proof. exact list_binop_fused_length. Qed.
+
+(* _multichannel_perform, for EVERY selector (leaf = the element's own method, arbitrary) and
+   every non-empty receiver: the result is the channel list, as long as the longest of receiver
+   and list arguments, whose i-th element is the method of receiver element i mod |self| applied
+   to every argument picked i modulo its length (scalars and tuples unchanged, [] for an empty
+   list); a nested channel list element performs the same call recursively (mc_elem). *)
+Theorem channel_list_methods_law : forall (leaf : arg -> list arg -> M arg) self args st,
+  self <> [] ->
+  mc_perform_gen leaf self args st =
+  bind (loop (fun i => mc_elem leaf (nth (i mod length self) self (Lst []))
+                               (map (fun a => wrap_at (as_list a) i) args))
+             0 (list_max (length self :: map (fun a => length (as_list a)) args)))
+       (fun r => ret (Lst r)) st.
+Proof. exact mc_perform_law. Qed.
+Theorem channel_list_methods_length_is_max : forall (leaf : arg -> list arg -> M arg) self args st r st',
+  self <> [] -> mc_perform_gen leaf self args st = Ok r st' ->
+  exists rs, r = Lst rs /\ length rs = list_max (length self :: map (fun a => length (as_list a)) args).
+Proof. exact mc_perform_length. Qed.
+(* ... and for lagud/slew/clip/fold/wrap/moddif (and lag* with a non-zero time) a unit element's
+   method is the constructor's own expansion of (unit :: picked arguments): mce_law applies again *)
+Theorem channel_list_methods_per_channel : forall cls u c rest,
+  mc_elem (leaf_method (MDirect cls)) (Scalar (U u c)) rest = multi_new (new1_plain cls 1) (Scalar (U u c) :: rest) /\
+  mc_elem (leaf_method (MClip cls)) (Scalar (U u c)) rest = multi_new (new1_plain cls 1) (Scalar (U u c) :: rest).
+Proof. exact mc_per_channel. Qed.
+(* dup creates nothing; poll is one expansion over (trig, receiver, labels, id) and returns the receiver *)
+Theorem channel_list_dup_law : forall self n st, cl_dup self n st = Ok (Lst (repeat (Lst self) n)) st.
+Proof. exact cl_dup_eq. Qed.
+Theorem channel_list_poll_law : forall poll imp self trig label tid defl st,
+  cl_poll poll imp self trig label tid defl st =
+  bind (multi_new (poll_new1 poll imp) [trig; Lst self; if is_none label then Lst defl else label; tid])
+       (fun _ => ret (Lst self)) st.
+Proof. exact cl_poll_eq. Qed.
+
+(* Out.ar(bus, output), complete.  With n = the number of lists reachable through lists in
+   as_list(output) (the code creates one DC.ar(0) per such list, zeros or not):
+   - exactly n units DC(0) are appended first, then the output units, nothing else;
+   - the channels spliced after the bus are related to as_list(output) position by position, in
+     order and at every list depth (list_rel): a literal zero became output 0 of one of those n
+     units, a list became a list of the same length, everything else (units, non-zero numbers,
+     strings, tuples with whatever inside) is unchanged; no literal zero is left;
+   - the output units are those of the generic expansion of (bus :: channels). *)
+Theorem out_splice_and_silence : forall dc out bus output st r st',
+  out_ar dc out bus output st = Ok r st' ->
+  let n := nlists (Lst (as_list output)) in
+  exists chans outs,
+    list_rel (fun uid => length st <= uid < length st + n) (as_list output) chans /\
+    existsb has_zero chans = false /\
+    multi_new (new1_plain out 1) (bus :: chans) (st ++ repeat (dc_unit dc) n) = Ok r st' /\
+    st' = st ++ repeat (dc_unit dc) n ++ outs /\
+    length outs = count_calls (bus :: chans) /\ Forall (flat_vector out) outs.
+Proof. exact out_ar_full. Qed.
+(* the silence pass itself never raises and is this pure function of the next unit id *)
+Theorem replace_zeroes_exact : forall dc a st,
+  rz dc a st = Ok (fst (rzp (length st) a)) (st ++ repeat (dc_unit dc) (nlists a))
+  /\ snd (rzp (length st) a) = length st + nlists a.
+Proof. exact rz_exact. Qed.
 
 (* --- non-vacuity: the model computes, hypotheses are satisfiable -------------------------------- *)
 Definition k (z : Z) := Scalar (K z).
@@ -159,7 +238,29 @@ Example cl_madd_unpatched_violates_law :
                   mkUnit 7 [Scalar (U 1 0); k 2; k 5]; mkUnit 7 [Scalar (U 1 0); k 3; k 5]]).
 Proof. vm_compute. split; reflexivity. Qed.
 
+(* ChannelList([u0, u1]).lagud([7, 8, 9], 5): three LagUD units, receiver and times wrap *)
+Example methods_example :
+  observe (mc_perform (MDirect 4) [Scalar (U 0 0); Scalar (U 1 0)] [Lst [k 7; k 8; k 9]; k 5])
+          [mkUnit 1 [k 100; k 0]; mkUnit 1 [k 101; k 0]] =
+  ORes (Lst [Scalar (U 2 0); Scalar (U 3 0); Scalar (U 4 0)])
+       [mkUnit 1 [k 100; k 0]; mkUnit 1 [k 101; k 0];
+        mkUnit 4 [Scalar (U 0 0); k 7; k 5]; mkUnit 4 [Scalar (U 1 0); k 8; k 5]; mkUnit 4 [Scalar (U 0 0); k 9; k 5]].
+Proof. vm_compute. reflexivity. Qed.
+(* ChannelList([u0, u1]) + [5, 6, 7] through the fused law's hypotheses *)
+Example binop_example :
+  observe (cl_binop 3 Z.add (Lst [Scalar (U 0 0); Scalar (U 1 0)]) (Lst [k 5; k 6; k 7]))
+          [mkUnit 1 [k 100; k 0]; mkUnit 1 [k 101; k 0]] =
+  ORes (Lst [Scalar (U 2 0); Scalar (U 3 0); Scalar (U 4 0)])
+       [mkUnit 1 [k 100; k 0]; mkUnit 1 [k 101; k 0];
+        mkUnit 3 [Scalar (U 0 0); k 5]; mkUnit 3 [Scalar (U 1 0); k 6]; mkUnit 3 [Scalar (U 0 0); k 7]].
+Proof. vm_compute. reflexivity. Qed.
+Example out_example_count : nlists (Lst [Lst [Scalar (U 0 0); k 0]; Lst [k 0; Scalar (U 1 0); k 7]]) = 3.
+Proof. reflexivity. Qed.
+
 Print Assumptions mce_law.
 Print Assumptions mce_one_unit_per_combination.
 Print Assumptions list_binop_wrap_law_partial.
 Print Assumptions out_splice_and_silence_partial.
+Print Assumptions list_binop_wrap_law.
+Print Assumptions channel_list_methods_law.
+Print Assumptions out_splice_and_silence.
